@@ -333,6 +333,29 @@ def run_bounded(b, repo, seed, tier):
             out["target"] = b["target"]
             out["contract_module"] = b["contract_module"]
         return out
+    if kind == "native_script":
+        r = native({"mode": "script", "module": b["module"], "repo": repo, "seed": seed, "tier": tier}, timeout=1200)
+        if "error" in r:
+            out["error"] = r["error"]
+            return out
+        rr = r["replay"]
+        out.update({"evaluations": rr.get("evaluations", 0), "distinct": rr.get("distinct", 0),
+                    "found": rr.get("status") == "failed", "rule": rr.get("rule", ""), "samples": rr.get("samples", [])[:2],
+                    "wall_s": rr.get("wall_s")})
+        listed = {f["id"]: f for f in load_findings().get("findings", [])}
+        out["known_lines"] = []
+        for fid, what in (rr.get("known") or {}).items():
+            if fid in listed:
+                out["known_lines"].append(f"{listed[fid]['text']} [{what}]")
+            else:
+                # a recognised-but-unlisted deviation is a violation like any other
+                out["found"] = True
+                out.setdefault("failure", {"clause": fid, "detail": what})
+        if rr.get("status") == "failed":
+            out["failure"] = rr.get("failure")
+            out["inputs"] = rr.get("inputs")
+            out["replay_script"] = b["module"]
+        return out
     if kind == "script":
         mod = importlib.import_module(b["module"])
         try:
@@ -390,7 +413,8 @@ def write_replay(prop, rep, ob, repo, seed, tier):
 def write_bounded_replay(prop, b, repo):
     h = hashlib.sha256(json.dumps(b, default=str, sort_keys=True).encode()).hexdigest()[:12]
     path = os.path.join(VERIF, "replays", f"{prop}-bounded-{h}.json")
-    doc = {"property": prop, "obligation": f"bounded:{b.get('name')}::{b.get('failure', {}).get('clause')}",
+    doc = {"property": prop, "obligation": f"bounded:{b.get('name')}::{(b.get('failure') or {}).get('clause')}",
+           "native_script": b.get("replay_script"),
            "function": b.get("target"), "contract_module": b.get("contract_module"), "repo": repo,
            "failing_input": b.get("inputs"), "failing_ghost": b.get("ghost"), "native_failure": b.get("failure"),
            "verdict": "reproduced (found natively by the bounded stand-in)",
@@ -403,9 +427,13 @@ def write_bounded_replay(prop, b, repo):
 def do_replay(path, repo):
     with open(path, encoding="utf-8") as fh:
         doc = json.load(fh)
-    if doc.get("replay_script"):
-        mod = importlib.import_module(doc["replay_script"])
-        return mod.replay(doc, repo=repo, native=native)
+    if doc.get("native_script"):
+        r = native({"mode": "script", "module": doc["native_script"], "repo": repo, "seed": 0, "tier": "quick"}, timeout=1200)
+        print(json.dumps(r, indent=1)[:3000])
+        if r.get("replay", {}).get("status") == "failed":
+            print(f"VIOLATION property={doc['property']} replay={path}")
+            return 1
+        return 0
     if not doc.get("failing_input"):
         print("replay file carries no concrete input (no-failing-input-found); solver output:")
         print(json.dumps({k: doc.get(k) for k in ("obligation", "path", "solver_answer", "model")}, indent=1)[:4000])
